@@ -75,6 +75,24 @@ func encIdent(class int, constructed bool, tag int) []byte {
 	return append(out, t...)
 }
 
+// Ident is the identifier octets of (class, constructed, tag), in high-tag-number form from tag 31 on.
+func Ident(class int, constructed bool, tag int) []byte { return encIdent(class, constructed, tag) }
+
+// Body is the content octets of the node as Bytes would write them.
+func (n *Node) Body() []byte {
+	if n.Constructed {
+		var body []byte
+		for _, k := range n.Kids {
+			body = append(body, k.Bytes()...)
+		}
+		return body
+	}
+	if n.Inner != nil {
+		return n.Inner.Bytes()
+	}
+	return n.Content
+}
+
 // Bytes encodes the node (definite, minimal lengths unless overridden).
 func (n *Node) Bytes() []byte {
 	if n.Raw != nil {
